@@ -11,7 +11,7 @@ miss=0
 for n in $names; do
   [ -f "seeded/$n/patch.diff" ] || continue
   exp=$(python3 -c "import json;print(' '.join(json.load(open('seeded/$n/meta.json'))['expected_to_fire']))")
-  got=$(engines/seedchecks.sh "seeded/$n/patch.diff" 2>/dev/null | grep '^FIRED:' | sed 's/FIRED: *//')
+  got=$(engines/seedchecks.sh "$PWD/seeded/$n/patch.diff" 2>/dev/null | grep '^FIRED:' | sed 's/FIRED: *//')
   status=ok
   for e in $exp; do case " $got " in *" $e "*) ;; *) status="MISSING:$e"; miss=1;; esac; done
   echo "$n expected=[$exp] fired=[$got] $status"
